@@ -34,10 +34,15 @@ TRUSTED = [
 ]
 ASSUMPTIONS = [
     "theorems quantify over ALL json values and ALL string-level validators V_* (section variables); 'strings "
-    "individually valid' is the hypothesis that the V_* answers carry no error-severity issue",
-    "C08_never_raises/C08_fault_* for the code as it exists (fixed=false) need the stated hypotheses; the "
-    "unconditional statements are proved for the repaired behaviour (fixed=true) and refuted for fixed=false "
-    "with concrete witnesses (known findings C08-F1..F3)",
+    "individually valid' in C08_wellformed_clean = the V_* answers carry no error-severity issue on the strings of the "
+    "document and their reference substitutions, placeholders are counted exactly on definition-free strings, and no "
+    "column mixes definition and non-definition strings",
+    "struct_ok (Model/Sidecar.v) formalises the structural rules of the statement; it additionally requires category "
+    "maps and their strings to be non-empty and the key HED not to occur inside plain metadata (both are reported by "
+    "the code); it is compared on every run with the harness's statement-level python predicate",
+    "the '#'-count fault theorems conclude 'PLACEHOLDER_INVALID reported, or the structure/reference screening "
+    "already reported an error (early exit)': the placeholder check runs after the only allowed early exit",
+    "part II of Props/C08.v (fixed=false) is the record of the defects repaired by ae9929b, 8a59f35, f477d0a",
     "correspondence is exhaustive only over the stated small alphabets (bounded); the fault-injection stream is random",
 ]
 
@@ -204,7 +209,7 @@ def braces_ok(s):
 def col_kind(v):
     """'cat' / 'value' / 'none' (no HED entry) for well-typed columns, else 'bad'."""
     if not isinstance(v, dict):
-        return "bad"
+        return "none" if FIXED else "bad"     # plain metadata (any JSON value) is legal since fix ae9929b
     if "HED" not in v:
         return "none"
     h = v["HED"]
@@ -252,9 +257,6 @@ def struct_ok(doc):
         for s in strs:
             if not braces_ok(s):
                 return False
-            # every brace pair must be a reference
-            if len(REF_RE.findall(s)) != s.count("{"):
-                return False
             rs += REF_RE.findall(s)
         refs_of[k] = rs
     for k, rs in refs_of.items():
@@ -264,6 +266,9 @@ def struct_ok(doc):
             if r in refs_of and refs_of[r]:
                 return False
     return True
+
+
+STRUCT_ONLY_CODES = {"SIDECAR_INVALID", "sidecarUnknownColumn", "wrongHedDataType", "blankValueString"}
 
 
 def classify_exception(doc, r):
@@ -302,8 +307,13 @@ def oracle(case, r, res):
         res.report("never-raises", rep, f"{r[2]} during {r[1]}", fid=classify_exception(doc, r))
         return
     errs = [c for c, e in r[1] if e]
-    if case.get("valid_strings") and struct_ok(doc) and errs:
+    ok = struct_ok(doc)
+    if case.get("valid_strings") and ok and errs:
         res.report("wellformed-clean", rep, f"error codes {errs} on a structurally well-formed sidecar")
+    elif ok and set(errs) & STRUCT_ONLY_CODES:
+        # whatever the strings are worth, these codes are never produced by string-level validation
+        res.report("wellformed-clean", rep, f"structural error codes {sorted(set(errs) & STRUCT_ONLY_CODES)} on a "
+                                            "structurally well-formed sidecar")
     exp = case.get("expect")
     if exp and exp not in errs:
         res.report("fault-flagged", rep, f"fault {case['fault']}: expected {exp}, got errors {errs}")
@@ -371,6 +381,8 @@ CAT_STR = ["Red", "Blue", "Green", "(Square, Large)", "Sensory-event", "Agent-ac
 VAL_STR = ["Label/#", "(Weight/# kg, Yellow)", "Description/#", "Parameter-value/#", "ID/#", "(Age/# years, Violet)"]
 DEF_STR = ["(Definition/MyDef, (Triangle, Small))", "(Definition/Acc/#, (Acceleration/# m-per-s^2, Purple))"]
 IGN_VAL = [{"Description": "free text"}, {"Levels": {"1": "one", "2": "two"}, "LongName": "x"}, {"Units": "s"}, {}]
+if FIXED:   # BIDS metadata that is not an object (legal since fix ae9929b)
+    IGN_VAL = IGN_VAL + ["rest", 3, None, ["a", {"x": 1}], True, 0, ""]
 TAIL_OF = {"trial_type": "Cyan", "response": "Magenta", "rt": "Pink", "stim_file": "Orange", "resp-2": "Brown",
            "Cond_1": "Gray", "x9": "Black", "duration2": "White"}
 
@@ -662,6 +674,7 @@ def run(tier, seed, res, model_ok=True, proof_ok=True):
     disagreements = 0
     unmodelled = 0
     helper_n = 0
+    structok_n = 0
     if model_ok:
         lines = []
         for c, (r, table) in zip(cases, worked):
@@ -690,6 +703,13 @@ def run(tier, seed, res, model_ok=True, proof_ok=True):
                 if not real:
                     res.violation("correspondence", {"json": c["text"], "kind": c["kind"]},
                                   f"impl={ic} model={mc}", no_input=True)
+        dict_cases = [c for c in cases if isinstance(c["doc"], dict)]
+        so = C.run_driver(exe, [C.to_sx(["X", "structok", jsx(c["doc"])]) for c in dict_cases])
+        for c, o in zip(dict_cases, so):
+            if (o == "1") != struct_ok(c["doc"]):
+                res.violation("struct_ok-spec", {"json": c["text"]},
+                              f"Coq struct_ok={o} python statement-level spec={struct_ok(c['doc'])}", no_input=True)
+        structok_n = sum(1 for o in so if o == "1")
         helper_n, _ = check_string_helpers(exe, random.Random(seed + 1), 3000 if tier == "quick" else 30000, res)
         # the generated code table as extracted equals what the implementation registers at import time
         from hed.errors.error_reporter import error_functions  # noqa
@@ -741,6 +761,7 @@ def run(tier, seed, res, model_ok=True, proof_ok=True):
         "unmodelled_skipped": unmodelled,
         "reached_string_validation": reached,
         "helper_function_cases": helper_n,
+        "struct_ok_true_cases": structok_n,
         "histogram": dict(sorted(hist.items())),
         "fault_histogram": faults,
     }
